@@ -79,7 +79,7 @@ fn classify(diff: &str, text: &str) -> String {
 }
 
 pub fn case_random(c: &mut Choices, log: &mut CaseLog) -> CaseResult {
-    let cfg = SgenCfg { node_budget: 30, ..SgenCfg::decorated() };
+    let cfg = SgenCfg { node_budget: 30, same_simple_names: true, ..SgenCfg::decorated() };
     let node = gen_schema(c, &cfg);
     let text = render_text(&node);
     log.label("case");
@@ -96,7 +96,7 @@ pub fn case_random(c: &mut Choices, log: &mut CaseLog) -> CaseResult {
 
 /// Same with null-namespace types nested in namespaced ones (known finding class).
 pub fn case_null_ns(c: &mut Choices, log: &mut CaseLog) -> CaseResult {
-    let cfg = SgenCfg { node_budget: 20, null_ns_inside: true, ..SgenCfg::decorated() };
+    let cfg = SgenCfg { node_budget: 20, null_ns_inside: true, same_simple_names: true, ..SgenCfg::decorated() };
     let node = gen_schema(c, &cfg);
     let text = render_text(&node);
     log.label("case");
